@@ -91,9 +91,51 @@ def ledger_of(c):
     return None if not m else (int(m.group(1)), int(m.group(2)), int(m.group(3)), int(m.group(4)))
 
 
+def fault_lines(exe, base, rnd):
+    """every allocation request of every scenario failed once, alone and together with all later ones: the number N of
+    requests is measured in a fault-free run of the real library"""
+    import diffrun
+    probe = ["alloc none 0 -1 " + l for l in base]
+    outs = []
+    for ch in diffrun.parallel_map(lambda c: diffrun.run_harness_all(exe, c), diffrun.chunked(probe, 16)):
+        outs += ch[0]
+    lines = []
+    total = 0
+    for l, o in zip(base, outs):
+        lg = ledger_of(o)
+        N = lg[2] if lg else 0
+        total += N
+        for k in range(N):
+            lines.append("alloc %d 0 %d %s" % (k, rnd.choice([-1, 0xCD]), l))
+            lines.append("alloc %d 1 -1 %s" % (k, l))
+    return lines, total
+
+
+def failing_scenarios(rnd, tier):
+    """lifecycles whose construction or parse FAILS half-way because an allocation is refused"""
+    n = 2 if tier == "quick" else 12
+    out = []
+    for k in c03.KINDS:
+        for _ in range(n):
+            l = c03.gen_line(rnd, k, full=True)
+            if len(l) < 1200:
+                out.append(l)
+    al = c03.api_lines(rnd, 0)
+    out += [l for l in rnd.sample(al, min(len(al), 40 if tier == "quick" else 400)) if len(l) < 1200]
+    out += ["tg a:0:41,a:3:01,a:221:0050f201", "tg a:0:-,s:4142,c:6,r:0,a:5:00", "tg s:41,s:4243,c:1,c:2"]
+    for kind in frames.PARSABLE:
+        els = frames.elem(0, b"net") + frames.elem(3, b"\x06") + frames.elem(48, frames.rsn_body(frames.suite(frames.IEEE, 4), [frames.suite(frames.IEEE, 4)], [frames.suite(frames.IEEE, 2)]))
+        out.append(frames.mp_line(frames.mgmt(kind, rnd, els), rnd.randrange(3), rnd))
+    for mode in range(3):
+        fr = c12.data_frame(rnd, mode % 2, c12.eapol_body(rnd, 0x010a, 22, 22))
+        out.append(frames.mp_line(fr, mode, rnd).replace("mp ", "eap ", 1))
+        out.append(frames.mp_line(fr, mode, rnd).replace("mp ", "cls ", 1))
+    return out
+
+
 def check(ctx):
     ctx.rule = ("create/edit/dump/free histories of every generator object (16 kinds, random edit histories), tag edit histories, and classify / all-nine-parsers / data / EAPOL extraction followed by the documented releases "
-                "on generated, crafted, truncated and bit-flipped frames (success and failure paths); every library malloc/realloc/free is recorded by a link-time wrapper: after each history no library block may remain (live=0), "
+                "on generated, crafted, truncated and bit-flipped frames (success and failure paths), and a sample of all of these with every single allocation request refused in turn (construction fails half-way, then the documented release); every library malloc/realloc/free is recorded by a link-time wrapper: after each history no library block may remain (live=0), "
                 "no invalid or double free (bad=0; ASan for use-after-free), and the event trace must equal the model's predicted trace; distinct = (op, allocation trace)")
     r = fw.prepare(ctx, MODULE)
     if r is None:
@@ -113,9 +155,22 @@ def check(ctx):
             leaks += 1
             ctx.violation("S-alloc/leak:" + l[:300], "after releasing every object %d library block(s) remain allocated and %d invalid free(s) happened: `%s` -> %s" % (lg[0], lg[1], l[:200], c[-200:]),
                           {"kind": "line", "suite": "S-alloc/lifecycle", "line": l, "observed": c, "expected": "live=0 bad=0"})
+    # the same for lifecycles whose construction or parse fails because the allocator refuses a request
+    flines, points = fault_lines(exe, failing_scenarios(rnd, ctx.tier), rnd)
+    fc, _, _ = fw.run_suite(ctx, exe, "S-alloc/failed-construction", flines, "object lifecycle with a refused allocation")
+    ctx.coverage["refused_allocation_points"] = points
+    for l, c in zip(flines, fc):
+        lg = ledger_of(c)
+        if lg is None:
+            continue
+        traces.add(c.split(" trace=")[1][:200])
+        if lg[0] != 0 or lg[1] != 0:
+            leaks += 1
+            ctx.violation("S-alloc/leak:" + l[:300], "construction failed on a refused allocation; after releasing every object %d library block(s) remain allocated and %d invalid free(s) happened: `%s` -> %s" % (lg[0], lg[1], l[:200], c[-200:]),
+                          {"kind": "line", "suite": "S-alloc/failed-construction", "line": l, "observed": c, "expected": "live=0 bad=0"})
     ctx.distinct.update(("trace", t) for t in traces)
     ctx.coverage["distinct_allocation_traces"] = len(traces)
-    ctx.oblige("spec-on-impl", "live=0 and bad=0 after every one of %d histories" % len(lines), leaks == 0)
+    ctx.oblige("spec-on-impl", "live=0 and bad=0 after every one of %d histories (%d of them with a refused allocation)" % (len(lines) + len(flines), len(flines)), leaks == 0)
     # release routines on zero-initialised objects
     z = ["zerofree"]
     fw.run_suite(ctx, exe, "S-alloc/zero-init", z, "release of zero-initialised objects")
